@@ -52,11 +52,31 @@ def ensure_project():
                        stdout=subprocess.DEVNULL, stderr=subprocess.DEVNULL)
 
 
-def gates():
-    """Scan every .v file (comments stripped) for forbidden declarations.
+def cone(prop_files):
+    """transitive closure of `BobV.Dir.File` references starting from prop_files"""
+    todo = list(prop_files)
+    seen = set()
+    while todo:
+        rel = todo.pop()
+        if rel in seen or not os.path.exists(os.path.join(COQ, rel)):
+            continue
+        seen.add(rel)
+        src = strip_comments(open(os.path.join(COQ, rel)).read())
+        for m in re.finditer(r"BobV((?:\.[A-Za-z_][A-Za-z0-9_']*)+)", src):
+            todo.append(m.group(1)[1:].replace(".", "/") + ".v")
+        # `From BobV.Dir Require Import A B.` / `From BobV Require Import Dir.A.`
+        for m in re.finditer(r"From\s+BobV((?:\.[A-Za-z_]\w*)*)\s+Require\s+(?:Import|Export)?\s*([^.]*(?:\.[A-Za-z_][^.\s]*)*)\.", src):
+            base = m.group(1)[1:].replace(".", "/")
+            for nm in m.group(2).split():
+                todo.append(os.path.join(base, nm.replace(".", "/")) + ".v")
+    return sorted(seen)
+
+
+def gates(files=None):
+    """Scan the .v files (comments stripped) for forbidden declarations.
     `Variable`/`Hypothesis` are allowed only inside a Section."""
     bad = []
-    for rel in v_files():
+    for rel in (files if files is not None else v_files()):
         src = open(os.path.join(COQ, rel)).read()
         src = strip_comments(src)
         depth = 0
@@ -154,7 +174,7 @@ def check_proofs(ctx, prop_files, extra_targets=()):
     if not ok:
         tail = "\n".join(log.strip().split("\n")[-25:])
         failed.append({"what": "coq build failed", "log": tail})
-    g = gates()
+    g = gates(cone(prop_files))
     if g:
         failed.append({"what": "forbidden declarations", "where": g[:20]})
     thms = []
@@ -198,6 +218,7 @@ def check_proofs(ctx, prop_files, extra_targets=()):
         "checker_cmd": "make -C /verif/coq " + " ".join(targets) + "  &&  coqc Print Assumptions <each theorem>  (gates: grep Admitted|admit|Axiom|Parameter|...)",
         "build_s": round(time.time() - t0, 1),
     }
+    ctx.proof["cone"] = cone(prop_files)
     ctx.sample({"obligations": thms[:8]})
     return ctx.proof["ok"]
 
